@@ -47,6 +47,8 @@ enum Dev {
     Amount(u8),
     TruncateAtWord(u8),
     Trailing(u8),
+    /// trailing bytes on the *inner* message inside a canonical wrapper
+    InnerTrailing(u8),
     OverCustody,
     TakenId,
     EmptyName,
@@ -172,6 +174,15 @@ impl C04 {
             RHub::ReceiveFromHub { chain: origin.as_bytes().to_vec(), msg: msg.clone() }
         };
         let mut p = abi_hub(&hub);
+        if let Dev::InnerTrailing(t) = d {
+            let mut inner = abi_msg(&msg);
+            match t {
+                0 => inner.push(0),
+                1 => inner.extend([0u8; 32]),
+                _ => inner.extend([0xabu8; 32]),
+            }
+            p = abi_params(&[Tok::Word(word_u128(4)), Tok::Dyn(origin.as_bytes().to_vec()), Tok::Dyn(inner)]);
+        }
         // locate the inner message: third head word is the offset of `bytes message`
         let off = u64::from_be_bytes(p[88..96].try_into().unwrap()) as usize;
         let inner = off + 32;
@@ -219,6 +230,7 @@ impl C04 {
         for a in 0..7u8 { v.push(Dev::Amount(a)); }
         for k in 0..24u8 { v.push(Dev::TruncateAtWord(k)); }
         for t in 0..3u8 { v.push(Dev::Trailing(t)); }
+        for t in 0..3u8 { v.push(Dev::InnerTrailing(t)); }
         v
     }
 }
@@ -482,7 +494,7 @@ fn main() {
         let thorough = tier == "thorough";
         let mut o = Opts::new(tier, if thorough { 4 } else { 2 });
         o.min_depth = 2;
-        o.rule = "histories over {set/remove trusted chain X, Y} and deliveries; a delivery = one of 5 conforming messages (transfer to service-deployed token, to canonical token, with data to an app, remote deploy without/with minter) with ONE deviation from {none, never approved, approved with other payload / id / source address / destination contract, source chain not the hub, source address not the hub address, SendToHub wrapper, outer type 0/1/2/5/255, inner type 2/3/4/5/255, origin never trusted, origin Y (trusted only after set), unknown token, 3 kinds of undecodable recipient/minter bytes, amount words 2^127, 2^128, 2^128+1000, 2^184+7, 2^192+5, 2^255, ff..ff, truncation at every 32-byte word, 3 kinds of trailing bytes, over-custody amount, taken token id, empty name, empty symbol}; delivering the same message twice arises as a path; payloads come from the independent ABI encoder".into();
+        o.rule = "histories over {set/remove trusted chain X, Y} and deliveries; a delivery = one of 5 conforming messages (transfer to service-deployed token, to canonical token, with data to an app, remote deploy without/with minter) with ONE deviation from {none, never approved, approved with other payload / id / source address / destination contract, source chain not the hub, source address not the hub address, SendToHub wrapper, outer type 0/1/2/5/255, inner type 2/3/4/5/255, origin never trusted, origin Y (trusted only after set), unknown token, 3 kinds of undecodable recipient/minter bytes, amount words 2^127, 2^128, 2^128+1000, 2^184+7, 2^192+5, 2^255, ff..ff, truncation at every 32-byte word, 3 kinds of trailing bytes on the payload and on the inner message, over-custody amount, taken token id, empty name, empty symbol}; delivering the same message twice arises as a path; payloads come from the independent ABI encoder".into();
         (C04 { thorough }, o)
     });
 }
